@@ -11,3 +11,8 @@ func VerifApplyInlineStylesToHTML(html string, styles map[string][]options.Inlin
 	bc := &BaseComponent{RenderOpts: &options.RenderOpts{InlineClassStyles: styles}}
 	return bc.ApplyInlineStylesToHTMLContent(html)
 }
+
+// VerifNormalizeAttributeValue exposes the value normalisation the attribute resolver applies.
+func VerifNormalizeAttributeValue(name, value string) string {
+	return normalizeAttributeValue(name, value)
+}
